@@ -100,5 +100,21 @@ package persistence
 //@ at call http.SetCookie assert[sets-the-deletion] arg(http.SetCookie, 1) == ret(MakeCookieFromOptions)
 
 //@ func NewManager
-//@ prop C13 C09
+//@ prop C13 C09 C19
 //@ ensures[manager-wraps-the-given-store-and-options] result != nil && result.Store == store && result.Options == cookieOpts
+
+// ------------------------------------------------------------------ C19: `nonnil` ticket/manager fields are established where the objects are made
+//@ func newTicket
+//@ prop C19 C02
+//@ ensures[nonnil:ticket-carries-the-cookie-options] ret1 == nil ==> ret0 != nil && ret0.options == cookieOpts
+//@ ensures[random-id-and-random-secret-read-separately] ret1 == nil ==> called(io.ReadFull#0) && called(io.ReadFull#1)
+//@     && ret1(io.ReadFull#0) == nil && ret1(io.ReadFull#1) == nil && ret0.secret == arg(io.ReadFull#1, 1) && len(ret0.secret) == 16
+//@     && arg(io.ReadFull#0, 1) != arg(io.ReadFull#1, 1)
+
+//@ func decodeTicket
+//@ prop C19
+//@ ensures[nonnil:ticket-carries-the-cookie-options] ret1 == nil ==> ret0 != nil && ret0.options == cookieOpts
+
+//@ prop C19
+//@ scan[nonnil:tickets-allocated-by-these-functions] alloc-of pkg/sessions/persistence.ticket pkg/sessions/persistence.newTicket pkg/sessions/persistence.decodeTicket pkg/sessions/persistence.(*Manager).Clear
+//@ scan[nonnil:manager-allocated-by-its-constructor] alloc-of pkg/sessions/persistence.Manager pkg/sessions/persistence.NewManager
